@@ -46,7 +46,8 @@ CONFIG = {
                  'R1:cast', 'R5:EU', 'R5:AU', 'R5:ER', 'R5:AR', 'R5:EG',
                  'R5:AG', 'R5:EF', 'R5:AF', 'R4:ctls', 'R2:synonyms_spacing', 'R2:nary_text',
                  'family:A_and_E_same_path', 'family:ltl_depth2_routes',
-                 'R1:object_reuse', 'R2:nary4', 'family:unary_over_binary_raw'],
+                 'R1:object_reuse', 'R2:nary4', 'family:unary_over_binary_raw',
+                 'family:nary_distinct_operands'],
     'rule': ('cases = relation instances (relation, structure, formula or '
              'pair of formulas); structures: class representatives with <=2 '
              'states (quick: plus a sample of 3-state ones; thorough: all) '
@@ -254,6 +255,47 @@ def r3(logic, nk, K, f, g, i):
                lambda r, S: r[0] == set(), 'mc(f and g and not g) = {}')
 
 
+def nary_family(nk, K, i, rr):
+    """and/or with three or four DISTINCT operands (atoms p, q, r and small
+    temporal formulas) below a temporal operator: the n-ary object, its text,
+    the right- and left-nested binary forms, through every entry point that
+    accepts the formula.  Operands beyond the second must count."""
+    p_, q_, r_ = ('ap', 'p'), ('ap', 'q'), ('ap', 'r')
+    plain = [p_, q_, r_, ('not', p_), ('not', q_), ('not', r_)]
+    temporal = [('X', p_), ('X', q_), ('F', q_), ('G', p_), ('X', ('not', r_))]
+    op = 'and' if i % 2 else 'or'
+    k = 3 if i % 3 else 4
+    ops = rr.sample(plain, k) if i % 4 < 2 else \
+        rr.sample(plain, k - 1) + [rr.choice(temporal)]
+    rr.shuffle(ops)
+    wraps = [lambda x: ('A', ('G', x)), lambda x: ('A', ('F', x)),
+             lambda x: ('A', ('X', x)), lambda x: ('A', x),
+             lambda x: ('A', ('U', x, r_)), lambda x: ('A', ('U', p_, x)),
+             lambda x: ('A', ('R', x, q_))]
+    w = wraps[(i // 2) % len(wraps)]
+    right = ops[-1]
+    for o in reversed(ops[:-1]):
+        right = (op, o, right)
+    left = ops[0]
+    for o in ops[1:]:
+        left = (op, left, o)
+    tn, tr, tl = w((op,) + tuple(ops)), w(right), w(left)
+    LOG.sig['family:nary_distinct_operands'] += 1
+    rs = [call('LTL', K, obj('LTL', tn)),
+          call('LTL', K, mcwork.text_of('LTL', tn)),
+          call('CTLS', K, obj('CTLS', tn, raw=True)),
+          call('LTL', K, obj('LTL', tr)),
+          call('CTLS', K, obj('CTLS', tl)),
+          call('CTLS', K, mcwork.text_of('CTLS', tn))]
+    if reflang.checkable(tn, 'CTL'):
+        rs.append(call('CTL', K, obj('CTL', tn)))
+        rs.append(call('CTL', K, mcwork.text_of('CTL', tn)))
+    relate('R2', 'nary_routes', nk, K, [tn], rs,
+           lambda r, S: all(x == r[0] for x in r),
+           'n-ary object = text = nested binary forms, through every entry '
+           'point that accepts the formula')
+
+
 # ---- R4 ------------------------------------------------------------------
 
 def nt(f):
@@ -429,6 +471,17 @@ def run(ctx):
             LOG.sig['family:A_and_E_same_path'] += 1
             r1_ctl_ctls(nk, K, t, i)
             r1_ctl_ctls(nk, K, t, 4 * (i // 4))          # with casts
+            i += 1
+        # n-ary and/or with distinct operands, also on a sibling structure
+        # that carries a third atom r
+        K3 = mcwork.kripke_of(NK(nk.states, nk.succ, [
+            frozenset(l) | ({'r'} if (j + si) % 3 == 0 else frozenset())
+            for j, l in enumerate(nk.labels)]))
+        nk3 = NK(nk.states, nk.succ, [
+            frozenset(l) | ({'r'} if (j + si) % 3 == 0 else frozenset())
+            for j, l in enumerate(nk.labels)])
+        for _ in range(4 if ctx.quick else 10):
+            nary_family(nk3, K3, i, rr)
             i += 1
         # a unary temporal operator over a binary operator whose operands are
         # raw strings, under several atom namings (the tableau's processing
